@@ -248,8 +248,9 @@ impl Scenario for DigestStream {
                 2 => {
                     let algo = *rng.pick(&["sha1", "sha256", "sha512"]);
                     let rounds = *rng.pick(&[1u64, 2, 3, 7, 64]);
-                    let len = *rng.pick(&[0u64, 1, 19, 20, 21, 31, 32, 33, 63, 64, 65, 100, 129, 200]);
-                    let (pl, sl) = (rng.range(0, 140) as usize, rng.range(0, 140) as usize);
+                    let len = *rng.pick(&[0u64, 1, 19, 20, 21, 31, 32, 33, 39, 40, 41, 60, 63, 64, 65, 96, 100, 127, 128, 129, 192, 200]);
+                    let pl = if rng.chance(1, 3) { *rng.pick(&[0usize, 1, 63, 64, 65, 127, 128, 129]) } else { rng.range(0, 140) as usize };
+                    let sl = rng.range(0, 140) as usize;
                     events.push(json!({"op": "pbkdf2", "algo": algo, "pw": hx(&rng.bytes(pl)), "salt": hx(&rng.bytes(sl)), "rounds": rounds, "len": len}));
                 }
                 _ => {
